@@ -10,7 +10,7 @@
 extern "C" {
   char g_iss_text[80]; int g_iss_calls;            /* text handed to the numeric conversion */
   int g_conv_ok;                                   /* arbitrary outcome of the libstdc++ conversion */
-  unsigned long g_cri_consumed; int g_cri_calls; int g_cri_sev;   /* stream position / severity when CheckRemainingInput is entered */
+  unsigned long g_cri_consumed; int g_cri_calls; int g_cri_sev; const char *g_cri_delims; double g_conv_real = 1.0; long g_conv_int = 1;   /* stream position / severity when CheckRemainingInput is entered */
   int g_sprintf_calls;
   char g_G_out[24];                                 /* what sprintf("%.*G") "produced" */
 }
@@ -41,12 +41,13 @@ istringstream::istringstream(const char *s) {
     g_iss_calls++;
     int i = 0; while (i < 79 && s[i]) { g_iss_text[i] = s[i]; i++; } g_iss_text[i] = 0;
 }
-istream &istream::operator>>(double &d) { if (g_conv_ok) { d = 1.0; } else { _m_state |= failbit; } return *this; }
-istream &istream::operator>>(long &d) { if (g_conv_ok) { d = 1; } else { _m_state |= failbit; } return *this; }
+/* contract of the library conversions (assumed): either a value is produced or failbit is set; the ghost values let a harness see which value was stored */
+istream &istream::operator>>(double &d) { if (g_conv_ok) { d = g_conv_real; } else { _m_state |= failbit; } return *this; }
+istream &istream::operator>>(long &d) { if (g_conv_ok) { d = g_conv_int; } else { _m_state |= failbit; } return *this; }
 }
 Severity CheckRemainingInput(istream &in, ErrorDescriptor *err, const char *typeName, const char *delims)
 {
-    (void)typeName; (void)delims;
+    (void)typeName; g_cri_delims = delims;
     g_cri_calls++; g_cri_consumed = in._m_consumed - (in._m_have ? 0 : 0); g_cri_sev = err->severity();
     return err->severity();
 }
